@@ -3,6 +3,7 @@ package transport
 import (
 	"context"
 	"encoding/binary"
+	"errors"
 	"fmt"
 	"sync"
 	"time"
@@ -112,6 +113,9 @@ func (t *QuicTransport) exchangePayload(ctx context.Context, payload []byte) (*d
 
 		b, err := t.exchangeConn(ctx, payload, c)
 		if err != nil {
+			if isQuicConnErr(err) {
+				t.forgetConn(c)
+			}
 			if !newConn && retry < 5 && !ctxIsDone(ctx) {
 				retry++
 				continue
@@ -119,6 +123,31 @@ func (t *QuicTransport) exchangePayload(ctx context.Context, payload []byte) (*d
 		}
 		return b, err
 	}
+}
+
+// isQuicConnErr reports whether err says that the whole connection is gone.
+func isQuicConnErr(err error) bool {
+	var (
+		appErr     *quic.ApplicationError
+		transErr   *quic.TransportError
+		idleErr    *quic.IdleTimeoutError
+		resetErr   *quic.StatelessResetError
+		hsErr      *quic.HandshakeTimeoutError
+		versionErr *quic.VersionNegotiationError
+	)
+	return errors.As(err, &appErr) || errors.As(err, &transErr) || errors.As(err, &idleErr) ||
+		errors.As(err, &resetErr) || errors.As(err, &hsErr) || errors.As(err, &versionErr)
+}
+
+// forgetConn makes sure that c, which is closing or closed, won't be
+// returned by getConn again. A closing connection fails its streams before
+// its context is canceled. getConn alone cannot tell that it is dead yet.
+func (t *QuicTransport) forgetConn(c quic.Connection) {
+	t.m.Lock()
+	if t.c == c {
+		t.c = nil
+	}
+	t.m.Unlock()
 }
 
 func (t *QuicTransport) exchangeConn(ctx context.Context, payload []byte, c quic.Connection) (*dnsmsg.Msg, error) {
